@@ -290,3 +290,49 @@ Proof.
   intros. rewrite (Gamma_sum_left Bpc na nk no) by auto. apply sumn_ext. intros g _.
   apply (Gamma_sum_right Bpc na nk no); auto.
 Qed.
+
+(* ---------- util.get_indices_from_identifiers ---------- *)
+From Coq Require Import String.
+Lemma last_index_of_spec s : forall l pos acc r,
+  last_index_of s l pos acc = Some r ->
+  (acc = Some r /\ ~ In s l) \/ (exists k, (k < List.length l)%nat /\ r = (pos + k)%nat /\ nth k l ""%string = s).
+Proof.
+  induction l as [|x l IH]; intros pos acc r H; simpl in H.
+  - left. split; auto.
+  - destruct (String.eqb_spec s x) as [->|Hne].
+    + apply IH in H. destruct H as [[H1 H2]|[k [Hk [Hr Hn]]]].
+      * right. exists 0%nat. simpl. split. lia. split. injection H1 as <-. lia. reflexivity.
+      * right. exists (S k). simpl. split. lia. split. lia. exact Hn.
+    + apply IH in H. destruct H as [[H1 H2]|[k [Hk [Hr Hn]]]].
+      * left. split; auto. simpl. intros [E|E]; [apply Hne; auto | contradiction].
+      * right. exists (S k). simpl. split. lia. split. lia. exact Hn.
+Qed.
+Lemma all_some_spec {A} (dflt : A) : forall (l : list (option A)) r, all_some l = Some r ->
+  List.length r = List.length l /\ forall i, (i < List.length l)%nat -> nth i l None = Some (nth i r dflt).
+Proof.
+  induction l as [|x l IH]; intros r H; simpl in H.
+  - injection H as <-. split; auto. intros i Hi. simpl in Hi. lia.
+  - destruct x as [x|]; [|discriminate].
+    destruct (all_some l) as [r'|] eqn:E; [|discriminate]. simpl in H. injection H as <-.
+    destruct (IH r' eq_refl) as [Hl Hn]. split. simpl. lia.
+    intros i Hi. destruct i; simpl. reflexivity. apply Hn. simpl in Hi. lia.
+Qed.
+
+(* get_indices_from_identifiers: identifiers=None selects every operator in order; a list of identifiers
+   selects, position by position, an index at which that identifier stands (the last one if it is repeated),
+   and every index is a valid operator index *)
+Theorem indices_none all_ids : indices_from_identifiers all_ids None = Some (seq 0 (List.length all_ids)).
+Proof. reflexivity. Qed.
+Theorem indices_some all_ids l idx : indices_from_identifiers all_ids (Some l) = Some idx ->
+  List.length idx = List.length l /\
+  forall i, (i < List.length l)%nat -> (sel idx i < List.length all_ids)%nat /\ nth (sel idx i) all_ids ""%string = nth i l ""%string.
+Proof.
+  intros H. unfold indices_from_identifiers in H.
+  destruct (all_some_spec 0%nat _ _ H) as [Hlen Hn]. rewrite map_length in Hlen, Hn. split. exact Hlen.
+  intros i Hi. specialize (Hn i Hi).
+  rewrite (nth_map_lt (fun s => last_index_of s all_ids 0 None) l i ""%string None) in Hn by auto.
+  apply last_index_of_spec in Hn. destruct Hn as [[Hd _]|[k [Hk [Hr Hs]]]]; [discriminate|].
+  unfold sel. rewrite Hr. simpl. split; auto.
+Qed.
+Corollary indices_idx_ok all_ids l idx : indices_from_identifiers all_ids (Some l) = Some idx -> idx_ok (List.length all_ids) idx.
+Proof. intros H i Hi. destruct (indices_some _ _ _ H) as [Hl Hn]. rewrite Hl in Hi. apply (Hn i Hi). Qed.
